@@ -270,6 +270,20 @@ where
                 if es != want || ns != wn {
                     bad.push(format!("step {}: into_graph gives nodes {:?} edges {:?}, expected {:?} {:?}", step, ns, es, wn, want));
                 }
+                // from_graph must accept any Graph describing the same graph: for an undirected one every edge is handed
+                // over with its endpoints swapped (into_graph itself only produces the canonical orientation)
+                let gr = if d {
+                    gr
+                } else {
+                    let mut h = petgraph::graph::Graph::<Kt, i64, Ty, u32>::with_capacity(0, 0);
+                    for w in gr.node_weights() {
+                        h.add_node(*w);
+                    }
+                    for e in gr.edge_references() {
+                        h.add_edge(e.target(), e.source(), *e.weight());
+                    }
+                    h
+                };
                 g = GraphMap::from_graph(gr);
             }
         }
